@@ -522,9 +522,12 @@ def main(mod, prop, tier, seed, replay=None):
     thm_ok, thm_det = (False, {"error": "build failed", "output": build_out}) if not ok_build else \
         check_theorems(prop, mod.THEOREMS)
     if ok_build and getattr(mod, "TRANSLATED", None):
-        tr_ok, tr_det = check_translation(prop, mod.TRANSLATED)
-        thm_det["translation"] = tr_det
-        thm_ok = thm_ok and tr_ok
+        specs = mod.TRANSLATED if isinstance(mod.TRANSLATED, list) else [mod.TRANSLATED]
+        thm_det["translation"] = []
+        for spec in specs:
+            tr_ok, tr_det = check_translation(prop, spec)
+            thm_det["translation"].append(tr_det)
+            thm_ok = thm_ok and tr_ok
 
     # ---- inputs: corpus first, then generated
     if replay:
